@@ -377,27 +377,25 @@ def r2(ctx):
         ctx.functions_analysed.add(f.key)
         p = [x for x in f.params if x != "self"]
         ctx.require(p, f"{f.key} takes no value")
-        g = ctx.cfg(f)
-        none_paths_ok = True
-        found_test = False
-        for n in g.nodes:
-            if n.kind == "test" and unparse(n.stmt.test).replace(" ", "") == f"{p[0]}isNone":
-                found_test = True
-                succ_true = [b for b, lab in g.succ[n.id] if lab == "true"]
-                # every return reachable on the None branch (before any merge) returns None
-                for b in g.reachable(succ_true):
-                    nb = g.node(b)
-                    if nb.kind == "stmt" and isinstance(nb.stmt, ast.Return) and (f"{p[0]} is None", True) in guard_atoms(g.edge_guards(b)):
-                        v = nb.stmt.value
-                        if not (v is None or (isinstance(v, ast.Constant) and v.value is None)):
-                            none_paths_ok = False
-                # and the test dominates every other return
-                for m_ in g.nodes:
-                    if m_.kind == "stmt" and isinstance(m_.stmt, ast.Return) and g.always_preceded(m_.id, [n.id]) is not None:
-                        none_paths_ok = False
-        ctx.check(found_test and none_paths_ok, f"{f.key}:none-passthrough",
-                  f"{f.qualname} does not return None for a None input before converting (NULL would raise or be converted)",
-                  f"`if {p[0]} is None: return None` first", f.loc)
+        # executed with the value bound to None: every path must return None (no conversion result, no raise);
+        # decided on the paths, not on the shape of the guard (`if v is None: return None`, `if v is not None: ...`
+        # followed by `return None`, a conditional expression, an else branch ... are the same thing)
+        env = {x: Opq(x) for x in f.params}
+        env[p[0]] = None
+        try:
+            paths = PathInterp(what=f.key).run_function(f.node, env)
+        except Unsupported as e:
+            ctx.require(False, f"{f.key}: {e}")
+        bad = []
+        for assume, kind, val, events in paths:
+            if kind == "raise":
+                bad.append("raises")
+            elif val is not None:
+                bad.append(f"returns {val!r}")
+        ctx.check(not bad, f"{f.key}:none-passthrough",
+                  f"{f.qualname} does not return None for a None input before converting (NULL would raise or be converted): "
+                  f"with `{p[0]}` = None it {', '.join(sorted(set(bad)))}",
+                  f"`{p[0]}` = None -> None on {len(paths)} path(s)", f.loc)
 
 
 # ---------------------------------------------------------------------- R3: component processors come from dialect-level types
